@@ -162,7 +162,7 @@ pub fn check_content(c: &mut Case, name: &str, m: &RefArchive, builds: usize, de
             }
         };
         c.eval(1);
-        match c.lib("BinArchive::serialize", || real.serialize()) {
+        match c.lib_stable("BinArchive::serialize", || real.serialize().map_err(|e| e.to_string())) {
             None => return,
             Some(Err(e)) => {
                 c.fail("serialize_err", "serialize_err", format!("{}: serialize returned Err({}) content={}", name, e, m.describe()));
